@@ -335,6 +335,23 @@ C06_INPUTS = [
     {"A": [{"item": {"v": 1}, "items": [{"v": 2, "w": None}]}], "B": [{"item": {"v": "s"}}]},
 ]
 
+def _shared_children():
+    """several parents that share the same identical sub-objects (merged into shared models placed after their common parents)"""
+    data = {}
+    for p_ in range(4):
+        d = {f"p{p_}_{j}": j for j in range(6)}
+        for s_ in range(3):
+            d[f"sh{s_}"] = {f"s{s_}_{j}": j for j in range(2 + s_)}
+        if p_ < 3:
+            d["sh3"] = {f"s3_{j}": j for j in range(3)}
+        data[f"par{p_}"] = d
+    for c_ in range(2):
+        data[f"tail{c_}"] = {f"t{c_}_{j}": 1.5 for j in range(3 + c_)}
+    return data
+
+
+C06_INPUTS.append({"Root": [_shared_children()]})
+
 C06_SCRIPT = r'''
 import json, sys
 sys.path.insert(0, sys.argv[1]); sys.path.insert(0, sys.argv[2])
@@ -370,9 +387,13 @@ def oracle_c06(case):
 @bounded("C06", "hash_seed_independence")
 def c06(tier, seed):
     seeds = list(range(0, 6)) if tier == "quick" else list(range(0, 24))
-    cases = [(d, seeds) for d in C06_INPUTS]
+    inputs = list(C06_INPUTS)
+    if tier == "thorough":
+        from .common import STRUCTURED
+        inputs += [{"Root": s_} for s_ in STRUCTURED]
+    cases = [(d, seeds) for d in inputs]
     r = run_cases(cases, oracle_c06, "c06")
-    r["bound"] = f"{len(C06_INPUTS)} inputs built to exercise merges of differently ordered / differently typed models and case-variant literals x PYTHONHASHSEED {seeds[0]}..{seeds[-1]} in fresh processes x 3 frameworks"
+    r["bound"] = f"{len(inputs)} inputs built to exercise merges of differently ordered / differently typed models and case-variant literals x PYTHONHASHSEED {seeds[0]}..{seeds[-1]} in fresh processes x 3 frameworks"
     r["function"] = "whole pipeline (fresh process per seed)"
     return r
 
